@@ -89,6 +89,27 @@ def gen(rng, tier):
         t = G.traj(rng, labs, rng.randint(40, 120), sticky=0.5) + labs
         yield {'trajs': [t], 'lag': 1, 'start': rng.choice(labs), 'steps': rng.choice([20, 100]), 'seed': rng.randrange(2**31),
                'alpha': 'negative-gapped', 'tmat': None, 'asobj': True}
+    for _ in range(4 if tier == 'quick' else 80):
+        # user matrices whose rows END in zeros and whose floating-point cumulative sum stops just BELOW one
+        # (0.28 + 0.33 + 0.16 + 0.23 = 0.9999999999999999): the draws next to one then fall through the scan
+        k = rng.randint(5, 8)
+        T = []
+        for i in range(k):
+            for _try in range(300):
+                nz = rng.randint(4, k - 1)
+                parts = [rng.randint(1, 60) for _ in range(nz)]
+                row = [Fraction(c, sum(parts)).limit_denominator(100) for c in parts]
+                row[-1] = 1 - sum(row[:-1])
+                if row[-1] <= 0:
+                    continue
+                acc = 0.0
+                for x in row:
+                    acc += float(x)
+                if acc < 1.0 or _try == 299:
+                    break
+            T.append([str(x) for x in row] + ['0'] * (k - nz))
+        yield {'trajs': None, 'lag': 1, 'start': rng.randrange(k), 'steps': rng.choice([10, 100]), 'seed': rng.randrange(2**31),
+               'alpha': 'tmat-trailing-zeros', 'tmat': T}
     for _ in range(3 if tier == 'quick' else 60):       # user matrices with transitions of probability ~1e-6
         k = rng.randint(2, 4)
         T = []
